@@ -54,6 +54,7 @@ func runC04(p *core.Prog, r *core.Result) {
 		"R4.4 on the no-cycle path results[i].Error = wait(targets[i]) and results[i].Target = targets[i].target for the same i, for all i",
 		"R4.5/R4.6 wait loops re-test under lock, every writer of the waited-for state wakes the waiters on all exits",
 		"R4.7 Run returns wait() of the target obtained for the requested label",
+		"R4.11 a target continues past its dependency request only after every requested dependency has finished: every return of EvaluateTargets lies behind the loop that waits for each started target (the return taken when the cycle check fails does not - see the known finding: there every result, also of dependencies that are not on the cycle, carries the cyclic-dependency error and nothing is waited for; C05's rules R5.2/R5.6 depend on exactly that)",
 		"R4.10 EvaluateTargets answers positionally: the slice of targets it starts, checks and waits for holds getTarget(labels[i]) at index i for every i (or is appended to once per label, unconditionally, in order), and the results slice has len(labels) elements - so results[i] is the outcome of labels[i] even when a label is listed twice",
 		"R4.9 the loader the runner calls is injective on labels: (*Project).LoadTarget hands out the registry entry stored under the canonical string of exactly the label it was asked for - the runner deduplicates by label string, so a second lookup under another key (an alias, a default name) gives one target two runner entries and it executes twice",
 		"R4.8 the only outcome that lets a requester continue without waiting - the cyclic-dependency error - is constructed only where the walk over published waiting sets has come back to the requester's own target (a diamond or a repeated label is not a cycle)",
@@ -188,6 +189,7 @@ func runC04(p *core.Prog, r *core.Result) {
 	// R4.4 results wiring
 	checkResultsWiring(p, r, a)
 	checkLabelsWiring(p, r, a, "R4.10")
+	checkReturnsAfterWaits(p, r, a, "R4.11")
 
 	// R4.5 / R4.6
 	waits := findWaits(p, r, "R4.5")
@@ -552,6 +554,66 @@ func checkResultsWiring(p *core.Prog, r *core.Result, a *runnerAnchors) {
 		r.Check(okTgt, "R4.4", construct+":Target", pos, "results[i].Target receives targets[i].target, read after wait() returned", "results[i].Target is not targets[i].target read after the wait")
 		r.Check(full && !early, "R4.4", construct+":all", pos, "the wait loop runs over every requested target (index 0..len-1) without early exit", "the wait loop may skip requested targets (index does not run 0..len(targets)-1 or the body can leave the loop)")
 	}
+}
+
+// checkReturnsAfterWaits implements R4.11.
+func checkReturnsAfterWaits(p *core.Prog, r *core.Result, a *runnerAnchors, rule string) {
+	fn := a.evalTargets
+	waits := core.CallsTo(fn, a.wait)
+	host := fn
+	var site *ssa.Call
+	if len(waits) == 0 {
+		// the wait loop in a helper whose result is returned as it is (R4.4 checks that)
+		for _, c := range core.Calls(fn) {
+			if h := core.Callee(c); h != nil && h.Pkg == fn.Pkg && h.Blocks != nil && len(core.CallsTo(h, a.wait)) > 0 {
+				host, waits = h, core.CallsTo(h, a.wait)
+				site, _ = c.(*ssa.Call)
+			}
+		}
+	}
+	if len(waits) == 0 {
+		r.Unk(rule, "runner.(*engine).EvaluateTargets#wait-loop", p.Pos(fn.Pos()), "no wait() call found")
+		return
+	}
+	w := waits[0].(ssa.Instruction)
+	// the header of the loop the wait sits in
+	var hdr *ssa.BasicBlock
+	for b := w.Block(); b != nil; b = b.Idom() {
+		for _, pr := range b.Preds {
+			if b.Dominates(pr) {
+				hdr = b
+			}
+		}
+		if hdr != nil {
+			break
+		}
+	}
+	if hdr == nil {
+		r.Unk(rule, "runner.(*engine).EvaluateTargets#wait-loop", p.InstrPos(w), "wait() is not in a loop")
+		return
+	}
+	n := 0
+	for _, ret := range core.ReturnsOf(fn) {
+		n++
+		behind := false
+		if host == fn {
+			behind = hdr.Dominates(ret.Block())
+		} else if site != nil {
+			behind = core.Dominates(site, ret)
+		}
+		// name the return after the path it is on: the one taken on a cyclic-dependency error, or the ordinary one
+		kind := "ordinary"
+		if a.checkDeps != nil {
+			for _, c := range core.CallsTo(fn, a.checkDeps) {
+				if nn, known := p.FactsAt(ret).ErrNonNil(c.Value()); known && nn {
+					kind = "cycle-path"
+				}
+			}
+		}
+		construct := fmt.Sprintf("runner.(*engine).EvaluateTargets#return-behind-the-waits:%s", kind)
+		r.Check(behind, rule, construct, p.InstrPos(ret), "this return is reached only through the loop that waits for every started target", "this return is reached without waiting for the started targets: the requester continues while requested dependencies are still running and is handed an outcome that is not theirs")
+	}
+	r.Floor(rule, n, 1, "returns of EvaluateTargets")
 }
 
 // checkLabelsWiring implements R4.10: labels[i] -> targets[i] (R4.4 continues targets[i] -> results[i]).
